@@ -2,7 +2,8 @@
 (* impl -> spec for C20. One record per run of a real `mos lsp` process:                                   *)
 (*   [id, state, mode, order, rc, ms, bound, portAfter, panicAt, blocked: <<wchan>>, life: <<[what, n]>>,  *)
 (*    others: <<"file|message" of panics of threads other than main>>]                                     *)
-(*   state: session state when the LSP client acts: "none" | "idle" | "running" | "paused"                 *)
+(*   state: session state when the LSP client acts: "none" | "idle" | "running" | "paused" | "busy" (the   *)
+(*          session thread is inside a `next` that never returns); shutdownReply: was `shutdown` answered  *)
 (*   mode : "shutdown_exit" | "close" (pipe closed, no shutdown) | "shutdown_close"                        *)
 (*   rc   : exit status; 1000 + signal when killed by a signal; -1 = still alive when the bound expired    *)
 (* Tier 1: CleanExit / Terminates of Shutdown.tla on the process observables.                              *)
@@ -28,12 +29,15 @@ Tier1(r) ==
        THEN <<V(r.id, "deviation", "UnwrapSharedContext", "exit status 101: panic at the unwrap of the shared context" \o where)>>
   ELSE IF ~terminated
        THEN <<V(r.id, "violation", "", "Terminates: still alive " \o ToString(r.bound) \o " ms after the client finished; threads wait in " \o ToString(r.blocked)
-                \o (IF Has(r, "dbg_join_enter") /\ ~Has(r, "dbg_join_return") THEN "; main is in DebugServer::join" ELSE "") \o where)>>
+                \o (IF Has(r, "dbg_join_enter") /\ ~Has(r, "dbg_join_return") THEN "; main is in DebugServer::join" ELSE "")
+                \o (IF ~r.shutdownReply THEN "; the `shutdown` request was never answered" ELSE "")
+                \o (IF Has(r, "shutdown_request") /\ ~Has(r, "exit_notification") /\ r.mode = "shutdown_exit" THEN "; main is blocked inside the shutdown handshake (MShutdown not completed)" ELSE "")
+                \o where)>>
   ELSE IF r.portAfter THEN <<V(r.id, "violation", "", "the debug port is still bound after the process ended" \o where)>>
   ELSE <<V(r.id, "violation", "", "CleanExit: exit status " \o ToString(r.rc) \o ", panic '" \o r.panicAt \o "'" \o where)>>
 
 (* ---- tier 2 ---- *)
-Impl == {"UnwrapSharedContext", "JoinBlockedInAccept", "SessionIgnoresFlag", "SignalPanicsDebugThread"}
+Impl == {"UnwrapSharedContext", "JoinBlockedInAccept", "SessionIgnoresFlag", "SignalPanicsDebugThread", "BusyStepBlocksJoin"}
 H0 == [s |-> S0, ok |-> TRUE, n |-> 0, why |-> ""]
 Rej(h, n, why) == [h EXCEPT !.ok = FALSE, !.n = n, !.why = why]
 Need(h, n, cond, sn, why) == IF cond THEN [h EXCEPT !.s = sn] ELSE Rej(h, n, why)
@@ -41,7 +45,7 @@ Ev(h, e, n) ==
   LET s == h.s IN
   CASE e.what = "dbg_started" -> h
     [] e.what = "lsp_initialized" -> Need(h, n, s.m = "init", MInit(s), "initialized twice")
-    [] e.what = "shutdown_request" -> Need(h, n, s.m = "serve", MShutdown(s), "shutdown outside the main loop")
+    [] e.what = "shutdown_request" -> Need(h, n, MShutdownEn(s, Impl), MShutdown(s), "shutdown outside the main loop")
     [] e.what = "exit_notification" -> Need(h, n, s.m = "wait_exit", MExit(s), "exit seen without shutdown")
     [] e.what = "main_loop_left" -> Need(h, n, s.m \in {"serve", "drain"} /\ e.n - s.refs \in -1..(IF s.d = "dead" THEN 2 ELSE 1) /\ (e.n > 1) = (s.refs > 1),   \* the count is read while the other thread may be cloning/dropping (or unwinding)
                                          MLeft(s), "main loop left in model state " \o s.m \o " with refcount " \o ToString(e.n) \o " (model " \o ToString(s.refs) \o ")")
